@@ -20,7 +20,9 @@ vars == <<cl, node, disk, app, net, hist, act>>
 
 ----------------------------------------------------------------------------
 EmptyDisk == [hs |-> NoHS, snap |-> NoSnap, cidx |-> 0, cterm |-> 0, ents |-> <<>>]
-IdleApp == [phase |-> "idle", rd |-> NoReady, appendQ |-> <<>>, applyQ |-> <<>>, appliedDurable |-> 0,
+\* localQ: acknowledgements of the append thread to the node itself that are still on their way back
+\* to the raft loop (they may be overtaken by other input; raft guards against that by term and index)
+IdleApp == [phase |-> "idle", rd |-> NoReady, appendQ |-> <<>>, applyQ |-> <<>>, localQ |-> <<>>, appliedDurable |-> 0,
             inc |-> 0, lastConfIdx |-> 0, appConf |-> EmptyConf, created |-> FALSE, sd |-> EmptyDisk]
 
 NoAct == [name |-> "Init", node |-> 0, inc |-> 0, ret |-> "ok", panic |-> "", pre |-> DownNode,
@@ -236,7 +238,8 @@ HistNext(h, a, i, pre, post, preD, postD) ==
                           twoVoterShrink |-> FALSE]
                 ELSE h.cfold
       cfold1 == CFoldAdvance(cfold0, gc1)
-      cname == IF a.name = "Deliver" /\ a.keep THEN "Dup" ELSE IF a.name = "CrashInAppend" THEN "Crash" ELSE a.name
+      cname == IF a.name = "Deliver" /\ a.keep THEN "Dup" ELSE IF a.name = "CrashInAppend" THEN "Crash"
+               ELSE IF a.name = "AppendThread" /\ a.keep THEN "Defer" ELSE a.name
       cnt1 == MapPut(h.cnt, cname, MapGet(h.cnt, cname, 0) + 1)
   IN  [h EXCEPT !.cnt = cnt1, !.maxLeaderCommit = maxLC1, !.hsExpPrev = h.hsExp, !.dlPrev = h.dl, !.cfgIdx = cfgIdx1, !.cfold = cfold1,
                 !.gc = gc1, !.gcBase = gcBase1, !.dl = dl1, !.leaders = leaders1, !.grants = grants1,
